@@ -199,7 +199,7 @@ carquet_status_t carquet_snappy_decompress(
         }
     }
 
-    if ((size_t)(op - dst) != uncompressed_len) {
+    if ((size_t)(op - dst) != uncompressed_len || ip != iend) {
         return CARQUET_ERROR_INVALID_COMPRESSED_DATA;
     }
 
